@@ -16,4 +16,7 @@ for cfg in ('all', 'default', 'none'):
 p, m = framework.extract_facts(os.path.join(os.getcwd(), 'fixtures', 'posctl'), 'default', crate='posctl')
 print('facts posctl', os.path.basename(p), m)
 PY
+# warm the caches used by the type-level witness crate (C18) and the feature matrix (C17); results are not evidence
+./check C18 > /dev/null 2>&1 || true
+./check C17 > /dev/null 2>&1 || true
 echo setup-ok
